@@ -101,6 +101,12 @@ namespace
         }
         void batch(H::Out &o, const std::vector<double> &ts, int k) const override
         {
+            // the result buffer will most likely be carved from memory that held other numbers a moment ago
+            {
+                std::vector<Vec, Eigen::aligned_allocator<Vec>> junk(ts.size(), Vec::Constant(98765.4321));
+                volatile double sink = junk.empty() ? 0.0 : junk.back()(0);
+                (void)sink;
+            }
             auto vs = pp.evaluate(ts, k);
             o.key("v");
             for (auto &v : vs)
